@@ -12,7 +12,7 @@ import (
 )
 
 type corpusStats struct {
-	Fixtures, Literals, Residues, Probes, Mutated, Long, Reps, Grown, Total int
+	Fixtures, Literals, Residues, Probes, Mutated, Long, Reps, Grown, Family, Total int
 }
 
 // parseFixture returns the --INPUT-- section of a libinjection test file.
@@ -235,4 +235,73 @@ func uniqInts(a []int) []int {
 		}
 	}
 	return out
+}
+
+var famFixedWords = []string{"script", "svg", "iframe", "style", "onerror", "onload", "href", "src", "xmlns", "select", "union", "sleep", "and", "or", "null", "from", "javascript", "data", "import", "entity", "xml", "like", "exec"}
+
+var famSQLTemplates = []string{"%s", "1 or %s", "`%s`", "1 or `%s`", "'%s'", "\"%s\"", "@%s", "%s(1)", "`%s`(1)", "1 %s 1", "select %s from t"}
+var famXSSTemplates = []string{"<%s>", "<%s x=1>", "<a %s=1>", "<a href=%s:x>", "<a %s>", "%s=1", "</%s>", "<!--%s-->", "<?%s?>", "<a style=%s>"}
+
+// addFamilies appends token families to the corpus: one word (plain, upper
+// case, with an embedded NUL, mixed case) instantiated in every SQLi and XSS
+// syntactic position. Words: a fixed list plus a seeded sample of the
+// identifier-like strings found in the library's own tables.
+func addFamilies(c *common.Corpus, dict []string, seed uint64) int {
+	r := simrt.NewRNG(seed ^ 0xfa3117)
+	words := append([]string(nil), famFixedWords...)
+	var ident []string
+	for _, d := range dict {
+		ok := len(d) >= 3 && len(d) <= 14
+		for i := 0; i < len(d) && ok; i++ {
+			ch := d[i]
+			if !(ch >= 'a' && ch <= 'z' || ch >= 'A' && ch <= 'Z' || ch == '_' || (i > 0 && ch >= '0' && ch <= '9')) {
+				ok = false
+			}
+		}
+		if ok {
+			ident = append(ident, strings.ToLower(d))
+		}
+	}
+	for k := 0; k < 22 && len(ident) > 0; k++ {
+		words = append(words, ident[r.Intn(len(ident))])
+	}
+	seen := map[string]int{}
+	for i, in := range c.In {
+		seen[in] = i
+	}
+	for len(c.Group) < len(c.In) {
+		c.Group = append(c.Group, 0)
+	}
+	group := int32(0)
+	n := 0
+	for _, w := range words {
+		mid := len(w) / 2
+		mixed := []byte(w)
+		for i := range mixed {
+			if i%2 == 0 && mixed[i] >= 'a' && mixed[i] <= 'z' {
+				mixed[i] -= 32
+			}
+		}
+		variants := []string{w, strings.ToUpper(w), w[:mid] + "\x00" + w[mid:], string(mixed)}
+		for _, v := range variants {
+			group++
+			tmpl := append(append([]string(nil), famSQLTemplates...), famXSSTemplates...)
+			for _, t := range tmpl {
+				in := strings.Replace(t, "%s", v, 1)
+				if i, ok := seen[in]; ok {
+					if c.Group[i] == 0 {
+						c.Group[i] = group
+						c.Flags[i] |= common.FFamily
+					}
+					continue
+				}
+				seen[in] = len(c.In)
+				c.In = append(c.In, in)
+				c.Flags = append(c.Flags, common.FFamily)
+				c.Group = append(c.Group, group)
+				n++
+			}
+		}
+	}
+	return n
 }
